@@ -8,14 +8,15 @@ package genql
 // plsql.go: the pipeline
 
 //@ func (*Query).exec$1
-//@   modifies cell(any) at err
-//@   ensures noop[C05,C19,C10]: !panicking() ==> *err == old(*err)
+//@   modifies cell(any) at &err
+//@   ensures noop[C05,C19,C10]: !panicking() ==> err == old(err)
 
 //@ func (*Query).exec
 //@   requires q: query != nil
 //@   requires opts: query.options != nil
 //@   requires wf: query.limitDefinition >= -1 && query.offsetDefinition >= -1
 //@   safety[C05] at rs[offset:]
+//@   loop 0 ascending-range rows[C20,C01,C02]: query.from
 //@   ensures window.len[C05]: err == nil && !old(query.dual) ==> called(ExecOrderBy) && typeis(result, []any) &&
 //@     | len(result.([]any)) == min(ite(old(query.limitDefinition) == -1, len(callresult(ExecOrderBy, 0)), old(query.limitDefinition)),
 //@     |     len(callresult(ExecOrderBy, 0)) - min(ite(old(query.offsetDefinition) == -1, 0, old(query.offsetDefinition)), len(callresult(ExecOrderBy, 0))))
@@ -173,14 +174,14 @@ package genql
 //@   ensures zero[C05,C19]: err != nil ==> !result
 
 //@ func Sort$1
-//@   modifies cell(any) at err
-//@   ensures noop[C05]: !panicking() ==> *err == old(*err)
+//@   modifies cell(any) at &err
+//@   ensures noop[C05]: !panicking() ==> err == old(err)
 
 //@ func Sort$2
-//@   requires idx: 0 <= i && i < len(*slice) && 0 <= j && j < len(*slice)
+//@   requires idx: 0 <= i && i < len(slice) && 0 <= j && j < len(slice)
 //@   safety[C05]
-//@   ensures less[C05]: spec.LessOK(elems(*slice), off(*slice), i, j, elems(*orderBy), off(*orderBy), len(*orderBy)) ==>
-//@     | result == spec.Less(elems(*slice), off(*slice), i, j, elems(*orderBy), off(*orderBy), len(*orderBy))
+//@   ensures less[C05]: spec.LessOK(elems(slice), off(slice), i, j, elems(orderBy), off(orderBy), len(orderBy)) ==>
+//@     | result == spec.Less(elems(slice), off(slice), i, j, elems(orderBy), off(orderBy), len(orderBy))
 
 //@ func Sort
 //@   safety[C05]
@@ -204,3 +205,53 @@ package genql
 //@   at-call append assert dir[C05]: appended.Value == (ordeorderBy.Direction == sqlparser.AscOrder) && ordeorderBy == (*orderBy)[rangeindex + 1]
 //@   at-call append assert at-end[C05]: target == query.orderByDefinition
 //@   ensures count[C05]: err == nil && orderBy != nil ==> len(query.orderByDefinition) == old(len(query.orderByDefinition)) + len(*orderBy)
+
+// ---------------------------------------------------------------------------
+// SETVAR / GETVAR (C20)
+
+//@ func SetVarFunc
+//@   requires q: query != nil && query.options != nil
+//@   requires enabled: query.options.vars != nil
+//@   requires free: !held(&query.options.varsMut)
+//@   requires json0: len(args) > 0 ==> spec.JSONValue(args[0])
+//@   safety[C20]
+//@   errors[C20]
+//@   locks[C20,C13]
+//@   ensures arity[C20]: len(args) != 2 ==> err != nil && mapval(query.options.vars) == old(mapval(query.options.vars)) && dom(query.options.vars) == old(dom(query.options.vars))
+//@   ensures register[C20]: len(args) == 2 ==> err == nil &&
+//@     | mapval(query.options.vars) == update(old(mapval(query.options.vars)), spec.FmtV(args[0]), args[1]) &&
+//@     | dom(query.options.vars) == update(old(dom(query.options.vars)), spec.FmtV(args[0]), true)
+//@   ensures no-column[C20,C12]: len(args) == 2 ==> typeis(result, Ommit)
+//@   modifies locks
+//@   modifies map(string,any) at query.options.vars
+
+//@ func GetVarFunc
+//@   requires q: query != nil && query.options != nil
+//@   requires free: !held(&query.options.varsMut)
+//@   requires json0: len(args) > 0 ==> spec.JSONValue(args[0])
+//@   safety[C20]
+//@   errors[C20]
+//@   locks[C20,C13]
+//@   ensures arity[C20]: len(args) != 1 ==> err != nil
+//@   ensures read[C20]: len(args) == 1 ==> err == nil && result == ite(has(query.options.vars, spec.FmtV(args[0])), query.options.vars[spec.FmtV(args[0])], nil)
+//@   modifies locks
+
+//@ func WithVars$1
+//@   requires q: query != nil && query.options != nil
+//@   safety[C20]
+//@   ensures same-map[C20]: query.options.vars == vars
+
+//@ lemma register-read-after-write[C20]: (forall ((m (Array Str Any)) (k Str) (v Any)) (= (select (store m k v) k) v))
+//@ lemma register-other-keys[C20]: (forall ((m (Array Str Any)) (k Str) (j Str) (v Any)) (=> (not (= j k)) (= (select (store m k v) j) (select m j))))
+
+// evaluation order: rows in source order, select-list items and function arguments left to right (C20, C02)
+
+//@ func ExecSelect
+//@   loop 0 ascending-range rows[C20,C02]: current
+
+//@ func SelectExpr
+//@   loop 0 ascending-range items[C20,C02]: expr.Exprs
+//@   at-call mapstore:data[name] assert no-omit[C20,C12]: !typeis(value, Ommit)
+
+//@ func FuncArgReader
+//@   loop 0 ascending-range args[C20,C18]: selectExprs
